@@ -222,17 +222,27 @@ func VerifMemCacheFullFallsBackToDisk() {
 	verif.Assert("not-in-memory", !cas.CheckInMemCache(verifD))
 }
 
-// VerifSecondWriteKeepsName: a correct blob is cached; any further write under
-// the same name, through any path, leaves the readable content hashing to it.
+// VerifSecondWriteKeepsName: a correct blob is cached (on disk, or still in
+// the memory write-through cache); any further write under the same name,
+// through any path, leaves the readable content hashing to it, also after the
+// memory entries were drained to disk.
 func VerifSecondWriteKeepsName() {
 	verifPickName()
 	good := verifGood
 	var err error
 	mem := verif.Choice("mem", 2) == 1
 	cas := verifCAS(mem, 8)
-	if err := cas.CreateCacheFile(verifD, bytes.NewReader(good)); err != nil {
+	// the correct blob arrives through the disk path or, with the memory cache
+	// on, through the memory write-through path (and is still undrained when
+	// the second write arrives)
+	first := 1
+	if mem {
+		first = 1 + verif.Choice("first-path", 2)
+	}
+	if err := verifWrite(cas, first, good, uint64(len(good)), 1); err != nil {
 		panic(err)
 	}
+	verif.Cover("first-blob-in-memory", mem && cas.CheckInMemCache(verifD))
 	path := verif.Choice("path", 3)
 	b := verifSymBlob("second-", path)
 	verif.Assert("first-visible", verifReaders(cas, 0))
@@ -241,8 +251,11 @@ func VerifSecondWriteKeepsName() {
 	verif.Cover("second-write-nil", err == nil)
 	verif.Assert("still-visible", verifReaders(cas, 0))
 	if mem {
-		cas.drainNext()
-		verif.Assert("still-visible-after-drain", verifReaders(cas, 0))
+		for i := 0; i < 2; i++ {
+			cas.drainNext()
+			verif.Assert("still-visible-after-drain", verifReaders(cas, 0))
+		}
+		verif.Cover("drained", !cas.CheckInMemCache(verifD))
 	}
 }
 
